@@ -311,6 +311,8 @@ func runOnce(sc Scenario, seed string) (outcome, []sim.Event, bool) {
 		r.foreign(sess, label, seed)
 	case "relabel":
 		r.relabel(sess, label)
+	case "early":
+		r.early(sess, label, seed)
 	default:
 		fatal("unknown scenario kind %q", sc.Kind)
 	}
@@ -1225,6 +1227,44 @@ func (r *runner) relabel(sess *protos.Session, label func(party.ID) string) {
 	default:
 		r.violate("C09", "relabelled-accepted", fmt.Sprintf("party %s did not refuse, in round %d, a message made by %s and presented under the name of %s: it ends %s (%v)", victim, r.sc.Round, from, k, st.St, st.Err), "")
 	}
+}
+
+// early: before anything else the deviating party presents a well-formed message of a LATER round (taken from another
+// run of the same session parameters, so its header is acceptable and its content is of the right type but does not
+// belong to this execution).  A handler that stores early messages must still verify them when their round comes.
+func (r *runner) early(sess *protos.Session, label func(party.ID) string, seed string) {
+	e := r.e
+	k := r.byz
+	donor, err := protos.Run(r.su.session([]byte("sid")), protos.RunOpts{Seed: seed + "/early-donor/" + fmt.Sprint(r.sc.Sched)})
+	if err != nil || !donor.AllDone() {
+		r.out.Applicable = false
+		r.out.Why = "the donor run did not complete"
+		return
+	}
+	for _, id := range r.su.ids {
+		e.AddParty(id, r.newParty(sess, id, label(id)))
+	}
+	n := 0
+	for _, m := range donor.Engine.Parties[k].Emitted {
+		if int(m.RoundNumber) != r.sc.Round || m.RoundNumber == 0 {
+			continue
+		}
+		for _, h := range r.honest {
+			if m.IsFor(h) {
+				fm := sim.CloneMsg(m)
+				e.SetVar(fm, "mut")
+				r.deliver(h, fm, "ok")
+				n++
+			}
+		}
+	}
+	if n == 0 {
+		r.out.Applicable = false
+		r.out.Why = "the deviating party sends nothing in that round"
+		return
+	}
+	r.out.Reached = true
+	r.loop(nil)
 }
 
 func containsStored(e *sim.Engine, inst party.ID, rd int, b bool, from party.ID) bool {
